@@ -7,6 +7,7 @@ A program ("spec") is plain JSON-able data:
      "ranks": [{"nodes": [<node>...], "outputs": [[name, node_index]...]}...]}
 
     <node> ::= {"op": "input", "name": s}
+             | {"op": "data", "values": [int…]}             (an unnamed DataWrapper)
              | {"op": "recv", "src": rank, "tag": tag_index, "variant": k}
              | {"op": "add"|"sub"|"mul", "a": i, "b": j}
              | {"op": "addc"|"mulc", "a": i, "c": int}
@@ -385,6 +386,8 @@ def node_key(rk, i, memo=None):
     st = bool(nd.get("stored"))
     if op == "input":
         k = ("input", nd["name"], st)
+    elif op == "data":
+        k = ("data", i, st)          # data wrappers are compared by identity of their buffer
     elif op == "recv":
         k = ("recv", nd["src"], nd["tag"], nd.get("variant", 0), st)
     elif op == "alias":
@@ -583,6 +586,8 @@ def reference(spec):
         op = nd["op"]
         if op == "input":
             v = input_value(spec, r, nd["name"])
+        elif op == "data":
+            v = np.array(nd["values"], dtype=np.int64)
         elif op == "recv":
             src = nd["src"]
             if not (0 <= src < spec["nranks"]):
@@ -666,6 +671,8 @@ def build(spec, rank):
         op = nd["op"]
         if op == "input":
             v = pt.make_placeholder(nd["name"], (n,), np.int64)
+        elif op == "data":
+            v = pt.make_data_wrapper(np.array(nd["values"], dtype=np.int64))      # unnamed
         elif op == "recv":
             extra = frozenset()
             if nd.get("variant", 0):
@@ -1026,3 +1033,56 @@ def fanin_family():
                        "seed": 0, "index": idx, "profile": "fanin",
                        "family": {"kind": "pingpong-sum", "k": k, "recv_first": recv_first, "tags": style}}
                 idx += 1
+
+
+def datawrapper_family():
+    """Valid programs in which ONE PART has several outputs (sent arrays and overall outputs)
+    that reach DIFFERENT unnamed data wrappers — the per-part kernels name those wrappers
+    `_pt_data`, `_pt_data_0`, … in traversal order of the part's outputs.  2 or 3 ranks,
+    2..4 wrappers per rank, several output-naming schemes, integer tags.  Yields specs."""
+    import itertools
+    schemes = [["alpha", "bravo", "charlie", "delta", "echo"], ["q", "e", "z", "a", "m"],
+               ["out_4", "out_3", "out_2", "out_1", "out_0"], ["u", "velocity", "T", "rho_e", "p2"]]
+    idx = 0
+    for nranks, nw, scheme, variant in itertools.product((2, 3), (2, 3, 4), range(len(schemes)), (0, 1)):
+        n = 3
+        tags = []
+        ranks = [{"nodes": [{"op": "input", "name": "x"}], "outputs": []} for _ in range(nranks)]
+        names = schemes[scheme]
+        incoming = {r: [] for r in range(nranks)}
+        # every rank owns nw data wrappers with distinct contents
+        dw = {}
+        for r in range(nranks):
+            for w in range(nw):
+                ranks[r]["nodes"].append({"op": "data", "values": [10 * r + w + 1, 7 * w - r, (r + 2) * (w + 3)]})
+                dw[(r, w)] = len(ranks[r]["nodes"]) - 1
+        # round 1: rank r sends (x op wrapper_w) for w < nw-1 to rank r+1 (mod nranks): several sent
+        # arrays of ONE part, each reaching its own wrapper
+        holders = {r: 0 for r in range(nranks)}
+        for r in range(nranks):
+            dst = (r + 1) % nranks
+            nodes = ranks[r]["nodes"]
+            for w in range(nw - 1):
+                nodes.append({"op": "add" if (w + variant) % 2 == 0 else "mul", "a": 0, "b": dw[(r, w)]})
+                tags.append(["i", 100 + len(tags)])
+                t = len(tags) - 1
+                nodes.append({"op": "send", "data": len(nodes) - 1, "dst": dst, "tag": t, "pass": holders[r]})
+                holders[r] = len(nodes) - 1
+                incoming[dst].append((r, t))
+        # after the receives: several overall outputs of ONE part, each reaching another wrapper
+        for r in range(nranks):
+            nodes = ranks[r]["nodes"]
+            outs = [["aux", holders[r]]]
+            for j, (src, t) in enumerate(incoming[r]):
+                nodes.append({"op": "recv", "src": src, "tag": t, "variant": 0})
+                rv = len(nodes) - 1
+                nodes.append({"op": "add" if (j + variant) % 2 else "mul", "a": rv, "b": dw[(r, (j + 1) % nw)]})
+                outs.append([names[j % len(names)], len(nodes) - 1])
+            # one more output on the last wrapper, independent of communication
+            nodes.append({"op": "sub", "a": dw[(r, nw - 1)], "b": 0})
+            outs.append([names[-1], len(nodes) - 1])
+            ranks[r]["outputs"] = outs[::-1] if variant else outs
+        yield {"nranks": nranks, "n": n, "topology": "datawrappers", "tags": tags, "ranks": ranks,
+               "seed": 0, "index": idx, "profile": "datawrappers",
+               "family": {"nranks": nranks, "wrappers_per_rank": nw, "names": scheme, "variant": variant}}
+        idx += 1
